@@ -1,0 +1,7 @@
+//go:build !verif
+
+package types
+
+func verifStepEnter() {}
+
+func verifStepExit() {}
